@@ -18,6 +18,18 @@
 use hutil::{Args, Log, Rng, Stats};
 use ractor_cluster::remote_actor_verif_hooks::ProxyProbe;
 
+#[path = "../tcpq.rs"]
+mod tcpq;
+
+/// `--tcp 1`: the link between the two nodes is a REAL loopback TCP connection: one node dials
+/// (real `client_connect`, node/client.rs) a socket of the relay, the relay dials the other node's
+/// real `Listener` (net/listener.rs); the relay's two pump tasks copy between the two sockets.
+static TCP: std::sync::atomic::AtomicBool = std::sync::atomic::AtomicBool::new(false);
+fn tcp_mode() -> bool {
+    TCP.load(std::sync::atomic::Ordering::Relaxed)
+}
+static LINK_NO: std::sync::atomic::AtomicU32 = std::sync::atomic::AtomicU32::new(0);
+
 /// (b) E-LTS end to end.
 ///
 /// One case = one world: NodeServers A (`a@h<case>`) and B (`b@h<case>`) in this process,
@@ -230,9 +242,24 @@ mod e2e {
     type Hold = (Arc<AtomicI64>, tokio::sync::watch::Receiver<bool>);
 
     #[allow(clippy::too_many_arguments)]
-    async fn pump(
-        mut r: tokio::io::ReadHalf<tokio::io::DuplexStream>,
-        mut w: tokio::io::WriteHalf<tokio::io::DuplexStream>,
+    /// how a relay direction lets go of its write half when the link dies by RST: a TCP write half must
+    /// be forgotten (dropping it sends a FIN first), an in-memory one is just dropped
+    trait LetGo {
+        fn let_go(self);
+    }
+    impl LetGo for tokio::io::WriteHalf<tokio::io::DuplexStream> {
+        fn let_go(self) {}
+    }
+    impl LetGo for tokio::net::tcp::OwnedWriteHalf {
+        fn let_go(self) {
+            self.forget()
+        }
+    }
+
+    async fn pump<R: tokio::io::AsyncRead + Unpin, W: tokio::io::AsyncWrite + Unpin + LetGo>(
+        mut r: R,
+        mut w: W,
+        rst: Vec<std::os::fd::RawFd>,
         mut rng: Rng,
         budget: Arc<AtomicI64>,
         kill: tokio::sync::watch::Sender<bool>,
@@ -296,7 +323,14 @@ mod e2e {
             }
         }
         let _ = kill.send(true);
-        // both halves are dropped here: the sessions see EOF / a broken pipe
+        // real sockets: one time in two the link dies by an abortive close (RST) instead of FIN
+        if !rst.is_empty() && rng.chance(1, 2) {
+            for fd in rst {
+                tcpq::set_reset_on_close(fd);
+            }
+            w.let_go();
+        }
+        // both halves are dropped here: the sessions see EOF / a broken pipe / a reset
     }
 
     /// Poll gated tasks in PRNG order until none is runnable (or the budget ends).
@@ -309,6 +343,14 @@ mod e2e {
             let held = HELD_TASKS.lock().unwrap().clone();
             let runnable: Vec<_> = ctl.tasks().into_iter().filter(|t| t.runnable() && !held.contains(&t.id)).collect();
             if runnable.is_empty() {
+                if tcp_mode() {
+                    // real sockets: rest = no gated task runnable AND the runtime idle AND nothing unread /
+                    // unsent / in flight on any socket of the process (observable, not a pause)
+                    if tcpq::settle_with(|| ctl.tasks().iter().any(|t| t.runnable() && !held.contains(&t.id))).await {
+                        return true;
+                    }
+                    continue;
+                }
                 // un-gated helpers (pumps, writer tasks, callers) and IO wake-ups
                 let mut woke = false;
                 for _ in 0..24 {
@@ -424,8 +466,13 @@ mod e2e {
             let host = format!("h{case}");
             let mk = |name: &str| NodeServer::new(0, "cookie".to_string(), name.to_string(), host.clone(), None, None);
             let (na, nb) = (mk("a"), mk("b"));
+            let p0 = tcpq::listening_ports();
             let a = drive(&ctl, &mut rng, st, async move { Actor::spawn(None, na, ()).await }).await?.ok()?;
+            let p1 = tcpq::listening_ports();
             let b = drive(&ctl, &mut rng, st, async move { Actor::spawn(None, nb, ()).await }).await?.ok()?;
+            let p2 = tcpq::listening_ports();
+            let port_a = p1.iter().copied().find(|p| !p0.contains(p));
+            let port_b = p2.iter().copied().find(|p| !p1.contains(p));
             // throw-away session on A: its peer end is already gone
             {
                 let (sa, sb) = tokio::io::duplex(1024);
@@ -474,6 +521,38 @@ mod e2e {
                     }
                 }
             }
+            if tcp_mode() {
+                // the real connection over loopback TCP, through the relay's two sockets
+                let a_is_server = w.rng.chance(1, 2);
+                let moved = Arc::new(AtomicI64::new(0));
+                let g = LINK_NO.fetch_add(1, Ordering::SeqCst);
+                let ip = tcpq::link_ip(g);
+                let (l, lp) = tcpq::listen_on(ip).ok()?;
+                let (dialler, acceptor_port) = if a_is_server { (w.b.clone(), port_a?) } else { (w.a.clone(), port_b?) };
+                let h = tokio::spawn(async move { ractor_cluster::client_connect(&dialler, (std::net::Ipv4Addr::from(ip), lp)).await.is_ok() });
+                let from_dialler = tcpq::accept_one(&l, 20).await?;
+                let mut guard = 0;
+                while !h.is_finished() {
+                    schedule(&w.ctl, &mut w.rng, 5, st).await;
+                    guard += 1;
+                    if guard > 2000 {
+                        return None;
+                    }
+                }
+                if !h.await.unwrap_or(false) {
+                    return None;
+                }
+                let to_acceptor = tcpq::dial_from(ip, acceptor_port).ok()?;
+                use std::os::fd::AsRawFd;
+                let fds = vec![from_dialler.as_raw_fd(), to_acceptor.as_raw_fd()];
+                let (dr, dw) = from_dialler.into_split();
+                let (cr, cw) = to_acceptor.into_split();
+                // direction 0 is A->B
+                let (d_dir, c_dir) = if a_is_server { (1, 0) } else { (0, 1) };
+                tokio::spawn(pump(dr, cw, fds.clone(), w.rng.fork(), w.budgets[d_dir].clone(), w.kill.clone(), w.kill.subscribe(), moved.clone(), (w.holds[d_dir].clone(), w.gate.subscribe())));
+                tokio::spawn(pump(cr, dw, fds, w.rng.fork(), w.budgets[c_dir].clone(), w.kill.clone(), w.kill.subscribe(), moved, (w.holds[c_dir].clone(), w.gate.subscribe())));
+                st.bump("tcp_links");
+            } else {
             // the real connection, through the relay
             let (a_sess, a_relay) = tokio::io::duplex(64 * 1024);
             let (b_relay, b_sess) = tokio::io::duplex(64 * 1024);
@@ -488,8 +567,8 @@ mod e2e {
                 let sender_is_server = if d == 0 { a_is_server } else { !a_is_server };
                 w.holds[d].store(if sender_is_server { 3 } else { 2 }, Ordering::SeqCst);
             }
-            tokio::spawn(pump(ar, bw, w.rng.fork(), w.budgets[0].clone(), w.kill.clone(), w.kill.subscribe(), moved.clone(), (w.holds[0].clone(), w.gate.subscribe())));
-            tokio::spawn(pump(br, aw, w.rng.fork(), w.budgets[1].clone(), w.kill.clone(), w.kill.subscribe(), moved, (w.holds[1].clone(), w.gate.subscribe())));
+            tokio::spawn(pump(ar, bw, vec![], w.rng.fork(), w.budgets[0].clone(), w.kill.clone(), w.kill.subscribe(), moved.clone(), (w.holds[0].clone(), w.gate.subscribe())));
+            tokio::spawn(pump(br, aw, vec![], w.rng.fork(), w.budgets[1].clone(), w.kill.clone(), w.kill.subscribe(), moved, (w.holds[1].clone(), w.gate.subscribe())));
             w.a.cast(NodeServerMessage::ConnectionOpenedExternal {
                 stream: Box::new(Duplex { stream: a_sess, label: "link".into(), fault: w.faults[0].clone() }),
                 is_server: a_is_server,
@@ -500,6 +579,7 @@ mod e2e {
                 is_server: !a_is_server,
             })
             .ok()?;
+            }
             let quiet = schedule(&w.ctl, &mut w.rng, 400_000, st).await;
             for _ in before..nprobes {
                 w.spawn_probe(st).await;
@@ -510,7 +590,7 @@ mod e2e {
                 let r = drive(&w.ctl, &mut w.rng, st, async move { ractor::call_t!(node, NodeServerMessage::GetSessions, 60_000) }).await;
                 if let Some(Ok(m)) = r {
                     for s in m.values() {
-                        if s.peer_addr == "link" {
+                        if s.peer_addr == "link" || (tcp_mode() && tcpq::link_of(&s.peer_addr).is_some()) {
                             w.nid[i] = s.node_id;
                         }
                     }
@@ -549,7 +629,7 @@ mod e2e {
                 for node in [w.a.clone(), w.b.clone()] {
                     let r = drive(&w.ctl, &mut w.rng, st, async move {
                         let m = ractor::call_t!(node, NodeServerMessage::GetSessions, 60_000).ok()?;
-                        let s = m.into_values().find(|s| s.peer_addr == "link")?;
+                        let s = m.into_values().find(|s| s.peer_addr == "link" || (tcp_mode() && tcpq::link_of(&s.peer_addr).is_some()))?;
                         ractor::call_t!(s.actor, ractor_cluster::NodeSessionMessage::GetReadyState, 60_000).ok()
                     })
                     .await;
@@ -967,6 +1047,10 @@ mod e2e {
         // a third of the cases: one direction of the relay stands still right after the
         // authentication frames, and actors exit / join / leave / appear in that window
         let hold = if rng.chance(1, 3) { Some(*rng.pick(&["a", "b"])) } else { None };
+        // real TCP: a relay direction that stands still leaves bytes unread in a socket, which is exactly
+        // what the quiescence test waits out - no held exchange there; and a real socket cannot be told
+        // to fail on one end only (the link dies by FIN / RST from the relay instead: cut / cutafter)
+        let hold = if tcp_mode() { None } else { hold };
         // the scopes of this case: the default one (`-`) and up to two named ones; the same group
         // names are used in every scope, so that a scope mix-up shows
         let scopes: Vec<&str> = match rng.below(3) {
@@ -1073,7 +1157,14 @@ mod e2e {
                     open_calls.push(ncall);
                     ncall += 1;
                 } else if k < 94 {
-                    ops.push(format!("holdt {} {t} {ncall} {} {}", dirs[d as usize], 100 + ncall, rng.pick(&[20u64, 50, 120])));
+                    let ms = *rng.pick(&[20u64, 50, 120]);
+                    if tcp_mode() {
+                        // real TCP: the (virtual) clock is also the idle detector of the quiescence test
+                        // and drifts by a few ms per I/O hop - caller timeouts of 20..120 ms are not exact
+                        ops.push(format!("hold {} {t} {ncall} {}", dirs[d as usize], 100 + ncall));
+                    } else {
+                        ops.push(format!("holdt {} {t} {ncall} {} {ms}", dirs[d as usize], 100 + ncall));
+                    }
                     open_calls.push(ncall);
                     ncall += 1;
                 } else if k < 96 && clock < 800 {
@@ -1121,7 +1212,7 @@ mod e2e {
                     live.push(all);
                     all += 1;
                 }
-                6 if !cut => {
+                6 if !cut && !tcp_mode() => {
                     // the transport of one node reports an I/O error: on its next read, or (half-open
                     // connection, reads stay silent) on the next write_all / flush of its writer task -
                     // a new probe makes both nodes send a Spawn frame
@@ -1471,6 +1562,9 @@ async fn main() {
     let mut st = Stats::default();
     let mut world = PureWorld { probe: None, ports: vec![], adv: None, adv_pend: vec![], adv_n: 0 };
 
+    let tcp = args.u64("tcp", 0) == 1;
+    TCP.store(tcp, std::sync::atomic::Ordering::Relaxed);
+    tcpq::STRICT.store(tcp, std::sync::atomic::Ordering::Relaxed);
     for f in args.str("replay-ops", "").split(',').filter(|f| !f.is_empty()) {
         replay_file(f, &mut log, &mut st, &mut world).await;
     }
@@ -1494,6 +1588,9 @@ async fn main() {
     }
     if let Some(p) = world.probe.take() {
         p.shutdown();
+    }
+    if tcp {
+        tcpq::stats(&mut st);
     }
     if let Some(mut p) = world.adv.take() {
         p.shutdown();
